@@ -2,6 +2,9 @@
 #ifndef C19_VAROPT_UNION_COPY_ASSIGN
 #define C19_VAROPT_UNION_COPY_ASSIGN 0
 #endif
+#ifndef C19_PART
+#define C19_PART 0
+#endif
 #include "vf/c19_life.hpp"
 #include <var_opt_sketch.hpp>
 #include <var_opt_union.hpp>
@@ -19,7 +22,7 @@ using namespace datasketches;
 namespace vf {
 const char* property_id() { return "C19"; }
 unsigned case_timeout_s() { return 120; }
-uint64_t num_cases(bool thorough) { return thorough ? 15000 : 800; }
+uint64_t num_cases(bool thorough) { return (C19_PART == 0 ? 3 : 2) * (thorough ? 3000 : 160); }
 void final_report() {}
 
 struct SCfg { uint32_t k1, k2; uint64_t domain; uint32_t max_batch; bool heavy; };
@@ -190,14 +193,17 @@ static void compile_probes() {
     "typedef datasketches::ebpps_sketch<user::item, user::al<user::item>> sk;\nvoid g(sk& a, const sk& b) { a.merge(b); }\n");
 }
 
+// the unit is compiled twice (registry flag -DC19_PART=0 / 1) to keep each compile short
 void run_case(uint64_t idx, Rng& r) {
-  if (idx == 0) compile_probes();
-  switch (idx % 5) {
+#if C19_PART == 0
+  switch (idx % 3) {
     case 0: run_program<VarOptFam<Item>>(r); break;
     case 1: run_program<VarOptFam<tstring>>(r); break;
-    case 2: run_program<VarOptUnionFam<Item>>(r); break;
-    case 3: run_program<EbppsFam<Item>>(r); break;
-    default: run_program<EbppsFam<tstring>>(r); break;
+    default: run_program<VarOptUnionFam<Item>>(r); break;
   }
+#else
+  if (idx == 0) compile_probes();
+  if (idx % 2 == 0) run_program<EbppsFam<Item>>(r); else run_program<EbppsFam<tstring>>(r);
+#endif
 }
 } // namespace vf
